@@ -21,7 +21,23 @@ def main():
         path = args[args.index("--replay") + 1]
         import replaylib
         return replaylib.replay(pid, path)
-    return mod.main(tier, seed)
+    try:
+        return mod.main(tier, seed)
+    except Exception:
+        # the check could not run to completion on this tree (the implementation raised where the harness did not expect it,
+        # or the harness itself failed): the property is not shown to hold - report it, with the traceback as the replay
+        import hashlib, json, traceback
+        from pathlib import Path
+        tb = traceback.format_exc()
+        V = Path(__file__).resolve().parent.parent
+        (V / "replays").mkdir(exist_ok=True)
+        path = V / "replays" / f"{pid}-crash-{hashlib.sha1(tb.encode()).hexdigest()[:10]}.json"
+        path.write_text(json.dumps({"property": pid, "kind": "check-could-not-complete", "tier": tier, "seed": seed,
+                                    "what_no_longer_checks": f"the whole {pid} check (theorems and correspondence): an exception escaped while running it against this tree",
+                                    "traceback": tb[-4000:]}, indent=1))
+        sys.stderr.write(tb)
+        print(f"VIOLATION property={pid} replay={path} no-failing-input-found")
+        return 1
 
 
 if __name__ == "__main__":
